@@ -62,8 +62,15 @@ package repository
 //@   ensures [entries] result1 == nil ==> len(result) == treeLen(hash) && (forall k int :: { result[k] } 0 <= k && k < len(result) ==> result[k].Name == treeName(hash, k))
 //@ func RepoData.ReadData
 //@   modifies nothing
+// anc(a, b): commit a is b or an ancestor of b in the (immutable, content addressed) commit graph.
+//@ spec func anc(a Hash, b Hash) bool
+//@ axiom anc_refl:  forall a Hash :: { anc(a, a) } anc(a, a)
+//@ axiom anc_trans: forall a Hash, b Hash, c Hash :: { anc(a, b), anc(b, c) } anc(a, b) && anc(b, c) ==> anc(a, c)
 //@ func RepoData.ListCommits
 //@   modifies nothing
+//@   ensures [exists]   result1 == nil ==> (ref in refs)
+//@   ensures [sound]    result1 == nil ==> (forall k int :: { result[k] } 0 <= k && k < len(result) ==> anc(result[k], refs[ref]))
+//@   ensures [complete] result1 == nil ==> (forall h Hash :: { anc(h, refs[ref]) } anc(h, refs[ref]) ==> (exists k int :: 0 <= k && k < len(result) && result[k] == h))
 //@ func RepoData.ListRefs
 //@   modifies nothing
 
